@@ -199,6 +199,13 @@ func solveAll(w *World, cfg *RunCfg, results []*FuncResult) {
 	for _, r := range results {
 		for _, o := range r.Obls {
 			o.Status = "discharged"
+			if o.ExpectFail && o.Pair && len(o.Queries) == 2 {
+				ref := func(q *Query) bool { return q.Status == "unsat" || q.Status == "trivial" }
+				if ref(o.Queries[1]) && !ref(o.Queries[0]) {
+					o.Status = "vacuous"
+				}
+				continue
+			}
 			if o.ExpectFail {
 				// canary: vacuous only if every sampled query is refuted
 				all := len(o.Queries) > 0
